@@ -52,7 +52,8 @@ func isAdminOrExplicitPassword(groupname, user string, creds group.ClientCredent
 		return false
 	}
 
-	if user != "" && desc.Users != nil {
+	if user != "" && desc.Users != nil &&
+		creds.Username != nil && *creds.Username == user {
 		u, ok := desc.Users[user]
 		if ok {
 			ok, err := u.Password.Match(creds.Password)
